@@ -1,15 +1,24 @@
 #!/bin/bash
-# keep_seed.sh <prop> <k> <suite note> : verify again against current rules and store under /verif/seeded/<prop>_<k>
+# keep_seed.sh <prop> <k> <suite note> [--root DIR] [--tag TAG] [verify_seed args]:
+# verify again against the current rules and store under /verif/seeded/<prop>_<tag><k>
 P=$1; K=$2; NOTE=$3; shift 3
+ROOT=/tmp/seed; TAG=""
+while [ "$1" = "--root" ] || [ "$1" = "--tag" ]; do
+  if [ "$1" = "--root" ]; then ROOT=$2; else TAG=$2; fi; shift 2
+done
 WT=/tmp/vseed_keep_$$
+DEST=/verif/seeded/${P}_${TAG}$K
 trap 'git -C /repo worktree remove --force $WT >/dev/null 2>&1' EXIT
-timeout 1500 /venv/bin/python /verif/tools/verify_seed.py /tmp/seed/$P/seed_out/$K --wt $WT --keep /verif/seeded/${P}_$K "$@" > /tmp/keep_${P}_$K.json 2>/dev/null
-/venv/bin/python - <<EOF
-import json
-p='/verif/seeded/${P}_$K/meta.json'
-m=json.load(open(p)); m['suite']="""$NOTE"""
-v=m.get('verification',{})
-for k in ('seed',): v.pop(k,None)
-json.dump(m,open(p,'w'),indent=1)
-print('${P}_$K', 'detected' if v.get('detected') else 'MISSED', v.get('demo_clean_exit'), v.get('demo_patched_exit'))
-EOF
+timeout 1500 /venv/bin/python /verif/tools/verify_seed.py $ROOT/$P/seed_out/$K --prop $P --wt $WT --keep $DEST "$@" > /tmp/keep_${P}_${TAG}$K.json 2>/dev/null
+/venv/bin/python - <<PYEOF
+import json, os
+p='$DEST/meta.json'
+if not os.path.exists(p):
+    print('${P}_${TAG}$K', 'NOT STORED (verification failed: see /tmp/keep_${P}_${TAG}$K.json)')
+else:
+    m=json.load(open(p)); m['suite']="""$NOTE"""
+    v=m.get('verification',{})
+    for k in ('seed',): v.pop(k,None)
+    json.dump(m,open(p,'w'),indent=1)
+    print('${P}_${TAG}$K', 'detected' if v.get('detected') else 'MISSED', v.get('demo_clean_exit'), v.get('demo_patched_exit'))
+PYEOF
